@@ -247,6 +247,8 @@ pub fn run(ctx: &mut Ctx) {
         .iter()
         .flat_map(|x| [F(*x), F(-*x)])
         .chain([F(f64::NAN), F(f64::INFINITY), F(f64::NEG_INFINITY)])
+        // NaN with the sign bit set (what 0 / 0 gives on x86-64) and with payload bits
+        .chain([F(-f64::NAN), F(f64::from_bits(0xfff8_0000_0000_0000)), F(f64::from_bits(0xfff8_0000_0000_0001)), F(f64::from_bits(0x7ff8_0000_0000_beef)), F(f64::from_bits(0xfff0_0000_0000_0001))])
         .collect();
     ctx.run_enum(&Display, pool.into_iter(), false);
     let n = ctx.tier.pick(400_000, 24_000_000);
